@@ -371,6 +371,10 @@ fn run(ctx: &Ctx) -> Report {
 }
 
 fn replay(_ctx: &Ctx, _stage: &str, case: &Value) -> Result<(), String> {
+    if let Some(t) = _stage.strip_prefix("fuzz:") {
+        let data = hex::decode(case["hex"].as_str().unwrap_or("")).map_err(|e| format!("HARNESS: {e}"))?;
+        return crate::fuzzing::by_name(t, &data);
+    }
     let c: Case = serde_json::from_value(case.clone()).map_err(|e| format!("HARNESS: bad replay case: {e}"))?;
     oracle(&c, &mut Stats::default())
 }
